@@ -358,6 +358,13 @@ def force_shapes(rng, topo, flavour, g):
         do({'op': 'add_network_service', 'name': sa, 'node_id': None, 'nstype': 'L2Bridge', 'interfaces': [[n1, c + '-p1', s1], second]})
         do({'op': 'add_network_service', 'name': sb, 'node_id': None, 'nstype': 'L2STS', 'interfaces': [[n1, c + '-p1', s2]]})
         do({'op': 'peer', 'a': sa, 'b': sb})
+        # a handle put aside, the service renamed through another handle, then peered 'with the renamed one' through the old
+        # handle: a service offered to itself as peer (refused by a correct library, so the shape is then simply absent)
+        sc, scn = g.fresh('fs'), g.fresh('rn')
+        if do({'op': 'add_network_service', 'name': sc, 'node_id': None, 'nstype': 'L3VPN', 'interfaces': None}):
+            do({'op': 'keep_handle', 'service': sc})
+            do({'op': 'rename', 'elem': ['service', sc], 'new': scn})
+            do({'op': 'peer', 'a': ['kept'], 'b': scn})
     else:
         sw = g.fresh('fsw')
         do({'op': 'add_switch', 'name': sw, 'node_id': g.fresh('sw-id'), 'site': 'RENC', 'nports': 3})
